@@ -17,6 +17,8 @@ CLAIMED = {
  "C13": ("proof", "value whitelist: Lean theorem that an accepted expression tree contains no non-conversion call, receive or function literal, over the whitelist regenerated from processValue + per-expression e2e (verdict, value = home evaluation, same value on every call, no function ran)", "5/C13"),
  "C15": ("proof", "copied declarations: regenerated copyAST field tables closed by decide + declaration corpus copied, compiled, vetted and executed against the originals", "5/C15"),
  "C16": ("proof", "determinism/layout: Lean theorems on vendor stripping (canonical form for every prefix, idempotence) and permutation-invariance of the sorted import block + unit-tier path streams + byte-equality across repeats, locations, invocation forms and module/GOPATH/vendor layouts", "5/C16"),
+ "C01": ("proof", "compilable output: IR-level well-formedness theorems (definition before use, argument types = binding-resolved parameter types, one call per constructed type, binder distinctness, declared signature, zero-value and copy totality) + every accepted generated package compiled with go build and each injector assigned to a variable of its declared function type", "5/C01"),
+ "C19": ("proof", "check/show: Lean theorems over the gather machine (termination, partition, inputs = leaf requirements, merged groups, order freedom) + regenerated call facts (Load and inject run the same stages) + real gather through an overlay of cmd/wire + check-vs-gen exit/error classes and parsed `wire show` output on generated programs", "5/C19"),
  "C11": ("proof", "binding aliasing in map and planner: Lean theorems + unit-tier correspondence + e2e run-time identity traces", "5/C11"),
  "C03": ("proof", "error-branch structure and unwinding: Lean theorems over the emission/execution model for every call list and fault plan + IR of every generated injector + run-time traces under every single-failure plan", "5/C03"),
  "C04": ("proof", "aggregated cleanup: Lean theorems over the emission/execution model + IR closure bodies + run-time traces", "5/C04"),
@@ -24,7 +26,7 @@ CLAIMED = {
 }
 TECH = "Lean 4 theorems about an executable model + differential correspondence with the real code (overlay harness)"
 ALL = ["C%02d" % i for i in range(1, 21)]
-READY = {"C02", "C03", "C04", "C05", "C06", "C07", "C08", "C09", "C10", "C11", "C14", "C12", "C13", "C15", "C16", "C17", "C18", "C20"}   # properties whose Props module has proved theorems
+READY = {"C01", "C19", "C02", "C03", "C04", "C05", "C06", "C07", "C08", "C09", "C10", "C11", "C14", "C12", "C13", "C15", "C16", "C17", "C18", "C20"}   # properties whose Props module has proved theorems
 CLAIMED = {k: v for k, v in CLAIMED.items() if k in READY}
 
 def main():
